@@ -23,8 +23,7 @@ def run(chk):
     rc.run_runner_check(chk, "C13", "proj_C13", OPTS, theorems_ok=ok)
     if ok:
         import source_tie
-        source_tie.report(chk, source_tie.loop_tie(chk), "loop",
-                          "scripted call sequences (random, abort sentinels and sweeps): no property violation found")
+        source_tie.runner_ties(chk)
 
 
 def replay(path):
